@@ -508,9 +508,10 @@ def alt_expect(c, names, credit, items, pair_credit, pair_earned=None):
     pair_earned (nesting only): the second reading of "earned credit" for an inner list, see expected()"""
     ne, ns = len(names), len(items)
     if c['length_error'] and ne != ns:
-        raise Raises('length')
+        raise Raises('a length error is due: %d items for %d expected, split on %r with length_error=True' % (ns, ne, c['delimiter']))
     if c['missing_error'] and any(is_blank(it) for it in items):
-        raise Raises('missing')
+        raise Raises('a missing-input error is due: items %r (split on %r) contain a blank one, the count is %s, missing_error=True, '
+                     'length_error=%r' % (items, c['delimiter'], 'right' if ne == ns else 'not checked', c['length_error']))
 
     def ok_pair(j, i, cr):
         return cr > 0 or (pair_earned is not None and pair_earned(names[j], items[i]))
@@ -596,8 +597,7 @@ def judge(spec, inp, st, out):
     except Raises as r:
         if st == 'exc' and isinstance(out, StudentFacingError):
             return None
-        return ('a %s error is due (length_error=%r, missing_error=%r) but the call returned %r'
-                % (r, spec['cfg']['length_error'], spec['cfg']['missing_error'], out))
+        return '%s; but the call returned %r' % (r, out)
     if st != 'ret':
         return 'no grade returned (%s: %s) although nothing calls for an error; the formula gives %s' % (type(out).__name__, out, grade)
     g = Fraction(out['grade_decimal'])
@@ -638,9 +638,31 @@ def permutation_inputs(rng, spec, inp, budget):
 # generators
 # ------------------------------------------------------------------------------------------------
 def gen_cfg(rng, delim):
-    return {'delimiter': delim, 'ordered': rng.random() < 0.4, 'length_error': rng.random() < 0.15,
-            'missing_error': rng.random() < 0.6, 'partial_credit': rng.random() < 0.7,
+    # the four (length_error, missing_error) combinations carry equal weight
+    le, me = rng.choice([(False, False), (False, True), (True, False), (True, True)])
+    return {'delimiter': delim, 'ordered': rng.random() < 0.4, 'length_error': le,
+            'missing_error': me, 'partial_credit': rng.random() < 0.7,
             'wrong_msg': rng.choice(['', '', 'WRONG'])}
+
+
+BLANKS = ['', ' ', '  ', '\t', ' \t ']
+
+
+def blank_family(rng, ne, delim, positions=None, blanks=None):
+    """submissions with EXACTLY ne items of which one (first / middle / last) is empty or whitespace-only, the others being
+    the favourite items; the blank falls back to '' where whitespace would interact with the delimiter"""
+    out = []
+    for pos in (positions if positions is not None else sorted({0, ne // 2, ne - 1})):
+        for b in (blanks if blanks is not None else [rng.choice(BLANKS)]):
+            items = [ITEM_NAMES[j % len(ITEM_NAMES)] for j in range(ne)]
+            items[pos] = b
+            s = delim.join(items)
+            got = my_split(s, delim)
+            if len(got) != ne or not is_blank(got[pos]):
+                items[pos] = ''
+                s = delim.join(items)
+            out.append(s)
+    return out
 
 
 def gen_leaves(rng, spec, names, credits):
@@ -666,8 +688,8 @@ def gen_leaves(rng, spec, names, credits):
             spec['table'][n + '|' + ITEM_NAMES[k % len(ITEM_NAMES)]] = [1, '']
 
 
-def gen_flat_answers(rng, spec, credits, names_pool, n_answers=None, tag='ANS'):
-    ne = rng.choice([1, 2, 2, 3, 3, 3, 4, 4, 5])
+def gen_flat_answers(rng, spec, credits, names_pool, n_answers=None, tag='ANS', ne=None):
+    ne = ne or rng.choice([1, 2, 2, 3, 3, 3, 4, 4, 5])
     n_answers = n_answers or rng.choice([1, 1, 1, 2, 2, 3])
     answers = []
     for k in range(n_answers):
@@ -693,12 +715,12 @@ def vary_item(rng, it):
     return '\t' + it + '  '
 
 
-def gen_inputs_for(rng, ne, delim, n_inputs, missing_bias=0.08, item_gen=None):
+def gen_inputs_for(rng, ne, delim, n_inputs, missing_bias=0.08, item_gen=None, right_count=0.55):
     item_gen = item_gen or (lambda: vary_item(rng, rng.choice(ITEM_NAMES[:6])))
     out = []
     for _ in range(n_inputs):
         r = rng.random()
-        ns = ne if r < 0.55 else rng.randint(1, 7)
+        ns = ne if r < right_count else rng.randint(1, 7)
         base = ITEM_NAMES[:]
         rng.shuffle(base)
         items = []
@@ -747,7 +769,10 @@ def gen_flat(rng, stream):
         k = rng.choice(sorted(spec['table'])) if spec['table'] else None
         if k:
             spec['table'][k] = 'raise'
-    spec['inputs'] = gen_inputs_for(rng, ne, delim, rng.randint(3, 5))
+    spec['inputs'] = gen_inputs_for(rng, ne, delim, rng.randint(3, 4), right_count=0.85 if spec['cfg']['length_error'] else 0.55)
+    # the right number of items, one of them blank: first / middle / last
+    fam = blank_family(rng, ne, delim)
+    spec['inputs'] += rng.sample(fam, min(2, len(fam)))
     return spec
 
 
@@ -756,7 +781,7 @@ def gen_nested(rng, stream):
     do = rng.choice(OUTER_DELIMS)
     di = rng.choice([d for d in INNER_DELIMS if d != do])
     co, ci = gen_cfg(rng, do), gen_cfg(rng, di)
-    ci['length_error'] = rng.random() < 0.1
+    fixed_inner = rng.choice([2, 2, 3]) if ci['length_error'] else None     # a wrong inner count is an error: keep inner lists alike
     spec = {'nested': True, 'cfg': co, 'inner_cfg': ci, 'leaves': {}, 'table': {}, 'single': rng.random() < 0.5, 'stream': stream}
     form = rng.choice(['explicit'] * 5 + ['string', 'infer'])
     spec['form'] = form
@@ -772,7 +797,7 @@ def gen_nested(rng, stream):
             for _ in range(nl):
                 lst = []
                 for _ in range(ne):
-                    ia, n_in = gen_flat_answers(rng, spec, credits, pool, n_answers=rng.choice([1, 1, 2]), tag='IN')
+                    ia, n_in = gen_flat_answers(rng, spec, credits, pool, n_answers=rng.choice([1, 1, 2]), tag='IN', ne=fixed_inner)
                     for a in ia:
                         a['lists'] = a['lists'][:1] if rng.random() < 0.7 else a['lists']
                     lst.append(ia)
@@ -784,11 +809,14 @@ def gen_nested(rng, stream):
         names = sorted({n for a in answers for l in a['lists'] for ia in l for b in ia for ll in b['lists'] for n in ll})
         gen_leaves(rng, spec, names, credits)
         typical = max(1, min(inner_lens))
+        first_lens = inner_lens[:ne]
     else:
         ne = rng.choice([1, 2, 3])
         parts = []
+        first_lens = []
         for _ in range(ne):
-            k = rng.choice([1, 2, 2, 3])
+            k = fixed_inner or rng.choice([1, 2, 2, 3])
+            first_lens.append(k)
             parts.append(di.join(rng.choice(pool) for _ in range(k)))
         spec['answers_string'] = do.join(parts)
         spec['answers'] = []
@@ -801,14 +829,26 @@ def gen_nested(rng, stream):
             spec['table'][n + '|' + ITEM_NAMES[k]] = [1, '']
         typical = 2
 
-    def inner_item():
-        return gen_inputs_for(rng, typical, di, 1, missing_bias=0.05)[0]
+    def inner_item(n=None):
+        return gen_inputs_for(rng, n or typical, di, 1, missing_bias=0.05, right_count=0.9 if (ci['length_error'] or n) else 0.55)[0]
     outs = []
-    for _ in range(rng.randint(3, 5)):
-        ns = ne if rng.random() < 0.6 else rng.randint(1, 4)
+    for _ in range(rng.randint(3, 4)):
+        ns = ne if rng.random() < (0.85 if co['length_error'] else 0.6) else rng.randint(1, 4)
         items = [inner_item() for _ in range(ns)]
         if rng.random() < 0.06:
             items[rng.randrange(ns)] = rng.choice(['', ' '])
+        outs.append(do.join(items))
+    # right counts at both levels, a blank piece inside one inner list (first / middle / last) ...
+    good = [di.join(ITEM_NAMES[j % len(ITEM_NAMES)] for j in range(first_lens[k])) for k in range(ne)]
+    pos = rng.randrange(ne)
+    items = list(good)
+    items[pos] = rng.choice(blank_family(rng, first_lens[pos], di))
+    if len(my_split(do.join(items), do)) == ne:
+        outs.append(do.join(items))
+    # ... and a blank item at the outer level
+    items = list(good)
+    items[rng.randrange(ne)] = rng.choice(BLANKS)
+    if len(my_split(do.join(items), do)) == ne:
         outs.append(do.join(items))
     spec['inputs'] = outs
     return spec
@@ -869,6 +909,23 @@ def corpus():
                 'leaves': {}, 'table': ident, 'inputs': ['x,y;z,w', 'w,z;y,x', 'x,y;z'], 'single': False, 'stream': 'exact'})
     out.append({'nested': True, 'cfg': cout, 'inner_cfg': dict(cin, missing_error=False), 'form': 'string', 'answers': [],
                 'answers_string': 'A,B;C,', 'leaves': {}, 'table': ident, 'inputs': ['x,y;z,w'], 'single': False, 'stream': 'exact'})
+    # right item count, one item blank or whitespace-only (first / middle / last), under each (length_error, missing_error)
+    for le in (False, True):
+        for me in (False, True):
+            for ordered in (False, True):
+                out.append(flat({'length_error': le, 'missing_error': me, 'ordered': ordered}, [ans('ABC', 1, 'ANS0')], plain, ident,
+                                blank_family(None, 3, ',', blanks=['', ' ', '\t ']) + ['x,y,z', ' , , ', 'x, ,z,w', ' ']))
+            out.append(flat({'length_error': le, 'missing_error': me, 'delimiter': '&&'}, [ans('AB', 1, 'ANS0')], plain, ident,
+                            blank_family(None, 2, '&&', blanks=['', ' ']) + ['x&&y', 'x && ', ' && y', 'x&& &&y']))
+            out.append(flat({'length_error': le, 'missing_error': me}, [ans('A', 1, 'ANS0')], plain, ident, ['', ' ', 'x', '\t']))
+            for ile in (False, True):
+                for ime in (False, True):
+                    out.append({'nested': True, 'cfg': dict(cout, length_error=le, missing_error=me),
+                                'inner_cfg': dict(cin, length_error=ile, missing_error=ime), 'form': 'explicit',
+                                'answers': [{'lists': [[inner('AB'), inner('CD')]], 'credit': 1, 'msg': 'ANS0'}],
+                                'leaves': plain, 'table': ident,
+                                'inputs': ['x,y;z, ', 'x,y; ,w', ' ,y;z,w', 'x,;z,w', 'x,y; ', ' ;z,w', 'x,y;z,w', 'x, y ;z,w,'],
+                                'single': False, 'stream': 'exact'})
     return out
 
 
